@@ -275,4 +275,17 @@ theorem format_gfmt (f : Fmt) (hs : 8 ≤ f.syncBits) (vol trk : Nat) (ids0 : Li
     exact (hperm.nodup_iff).1 hnd
   · simpa using hlen
 
+/-- the track the formatter hands back: `bit_count` bits, every one written, pointer at 0 -/
+theorem formatTrack_bits (f : Fmt) (hs : 8 ≤ f.syncBits) (vol trk : Nat) (ids : List Nat) (t0 : Trk)
+    (h0 : t0.bits.length = f.bitCount ids.length) (hp0 : t0.pos = 0) :
+    (formatTrack f vol trk ids t0).bits = trackW f vol trk ids ∧ (formatTrack f vol trk ids t0).pos = 0 := by
+  have hl := trackW_length f hs vol trk ids
+  have hn : 0 < f.bitCount ids.length := by unfold Fmt.bitCount; omega
+  rw [formatTrack_eq]
+  constructor
+  · have := writeBits_bits (trackW f vol trk ids) t0 t0.bits [] (by simp) (by rw [h0, hl])
+    simpa using this
+  · have := writeBits_posAt (trackW f vol trk ids) t0 (f.bitCount ids.length) 0 ⟨h0, hn, by rw [hp0]; simp⟩
+    rw [this.2.2, hl]; simp
+
 end A2Verif.Model.Track
